@@ -152,6 +152,21 @@ def run(chk):
 
     dm = chk.repo.cls(*DAILY_MODEL)
     init = method(chk, dm, "__init__")
+    # A stored model routes with the *stored* season / weekday maps only if from_dict builds the new object through the constructor with
+    # them: the routing tables (R13.1) are derived from the settings there and nowhere else.  Shared with C01 (rules/daily_roundtrip.py):
+    # the writer and from_dict are interpreted back to back; here only the construction of the reloaded object is judged.
+    r7 = chk.rule("R13.7", "a reloaded model routes days with the stored season / weekday settings: from_dict constructs the model with the stored settings (the routing tables are derived in the constructor)", 2)
+    from rules.daily_roundtrip import round_trip as _daily_round_trip
+    _cp, _fd = method(chk, dm, "_create_params_from_fit_model"), method(chk, dm, "from_dict")
+    for _tj in (True, False):
+        try:
+            _o = _daily_round_trip(chk, dm, _cp, _fd, _tj)
+        except Unsupported as e:
+            raise AnalysisError(f"{_fd.key}: daily round trip uses an operation outside the modelled subset: {e}")
+        _msg = (_o.get("diffs") or {}).get("settings") if "raises" not in _o else None
+        r7.require(_msg is None, f"{_fd.key}|reloaded-model-built-from-stored-settings|{'json' if _tj else 'dict'}", _fd.where(),
+                   f"{_fd.qualname}: {_msg}; the weekday / weekend day lists and season labels the reloaded model routes with are those of the default settings, whatever the stored model says "
+                   f"(a Friday-Saturday weekend is predicted with the Saturday-Sunday sub-model)", sample={"through_json": _tj})
     # The constructor is interpreted from its AST on an abstract model object (settings replaced by a stand-in carrying one weekday map);
     # the vocabulary is then read off the object: instance attributes, or class-level literals when the constructor leaves them alone.
     weekday_maps = [
